@@ -25,18 +25,20 @@ fn oracle(src: &Range<usize>, i: u32, j: u32) -> Option<usize> {
 }
 
 /// `range(s, e)`: bounds (s, e), h*w cells, equals the source where they overlap, default elsewhere.
-/// Every window with corners s <= e inside rows 0..=3 x cols 0..=4 is enumerated concretely.
+/// Every window with corners s <= e inside the grid rows 0..=h+1 x cols 1..=w+2 (one line of margin around the
+/// source, which sits at (1, 2)) is enumerated concretely: per axis this covers every relative position of a
+/// window interval to the source interval (disjoint before/after, partial overlap, inside, exact, containing).
 fn check_window(h: u32, w: u32) {
     let src = any_src(h, w);
-    let (nr, nc) = (4u32, 5u32);
-    let mut s0 = 0u32;
-    while s0 < nr {
+    let (r_lo, r_hi, c_lo, c_hi) = (0u32, h + 1, 1u32, w + 2);
+    let mut s0 = r_lo;
+    while s0 <= r_hi {
         let mut e0 = s0;
-        while e0 < nr {
-            let mut s1 = 0u32;
-            while s1 < nc {
+        while e0 <= r_hi {
+            let mut s1 = c_lo;
+            while s1 <= c_hi {
                 let mut e1 = s1;
-                while e1 < nc {
+                while e1 <= c_hi {
                     check_one_window(&src, (s0, s1), (e0, e1));
                     e1 += 1;
                 }
@@ -78,6 +80,30 @@ fn range_window_2x1() { check_window(2, 1); }
 #[kani::unwind(7)]
 fn range_window_2x2() { check_window(2, 2); }
 
+/// an empty source: every window is all default (FAILS on the real code: windows containing (0, 0) panic in chunks(0))
+#[kani::proof]
+#[kani::unwind(7)]
+fn range_window_empty() {
+    let src: Range<usize> = Range::empty();
+    let mut s0 = 0u32;
+    while s0 <= 1 {
+        let mut e0 = s0;
+        while e0 <= 1 {
+            let mut s1 = 0u32;
+            while s1 <= 1 {
+                let mut e1 = s1;
+                while e1 <= 1 {
+                    check_one_window(&src, (s0, s1), (e0, e1));
+                    e1 += 1;
+                }
+                s1 += 1;
+            }
+            e0 += 1;
+        }
+        s0 += 1;
+    }
+}
+
 /// rows(): h rows of w cells, row i == inner[i*w .. (i+1)*w]; size_hint exact; next_back yields the last row
 fn check_rows(h: u32, w: u32) {
     let src = any_src(h, w);
@@ -109,13 +135,13 @@ fn check_rows(h: u32, w: u32) {
     assert!(back.len() == hh - 1);
 }
 #[kani::proof]
-#[kani::unwind(5)]
+#[kani::unwind(11)]
 fn range_rows_3x3() { check_rows(3, 3); }
 #[kani::proof]
-#[kani::unwind(5)]
+#[kani::unwind(11)]
 fn range_rows_2x3() { check_rows(2, 3); }
 #[kani::proof]
-#[kani::unwind(5)]
+#[kani::unwind(11)]
 fn range_rows_3x1() { check_rows(3, 1); }
 
 /// cells(): enumerates (i / w, i % w, &inner[i]) in order; used_cells(): exactly the non-default ones among them, in order
